@@ -10,7 +10,7 @@ ENGINES = [
   'kind_free_text': 'explicit-state exploration: enumerates every grammar inside stated bounds, injects it into a compiled instantiation of the real ctpg::parser, compares the LR(1) automaton the real analyzer builds with a reference canonical LR(1) automaton state by state, then runs the real parse() on every string up to a length bound against a reference driver'},
   {'name': 'E-RX', 'path': 'engines/rx_main.cpp', 'serves_properties': ['C03', 'C04', 'C10', 'C17'],
   'kind_free_text': 'explicit-state exploration: enumerates pattern ASTs / term sets / pattern strings inside stated bounds, drives the real regex front-end, dfa_builder and lexer loop, and explores the emitted automaton together with a reference automaton (reachable state pairs x all 256 bytes)'},
-  {'name': 'E-IN/E-CT', 'path': 'progs/', 'serves_properties': ['C13', 'C14', 'C19'],
+  {'name': 'E-IN/E-CT', 'path': 'progs/', 'serves_properties': ['C07', 'C13', 'C14', 'C19'],
   'kind_free_text': 'compiled black-box programs (no guard, no private access) that enumerate a finite configuration x input space completely and check invariants on every execution; built with g++ and clang++'},
 ]
 
@@ -52,6 +52,9 @@ CHECKS = {
  'C17': ('exhaustive enumeration of all strings up to a length bound as patterns; three-valued reference classifier; checked buffer for reads past the end',
          'Bounded exhaustive model checking over pattern-string space: every string up to length 4 (quick) / 5 and 7 over metacharacters (thorough).',
          'Undeclared-symbol grammars (second half of the statement) are decided by the compile-time program enumerator.', '3 C17'),
+ 'C07': ('exhaustive enumeration of inputs as generated constexpr declarations; per-case constant-expression verdict from g++ and clang++ diagnostics; six-way run-time differential',
+         'Bounded exhaustive exploration: 4 literal-typed grammars x every input up to length 3-4 (quick) / 4-6 (thorough) x 2 compilers; the constant evaluator doubles as a complete undefined-behaviour oracle for the failure paths.',
+         'Results are ints; a context grammar is not included.', '3 C07'),
  'C13': ('exhaustive enumeration of contextual/non-contextual functor assignments x context categories x inputs on compiled parsers',
          'Bounded exhaustive exploration of a finite configuration space (16 functor assignments x 6 call forms) crossed with every input up to the bound; every functor call is compared with the reduction sequence of the documented driver.',
          'One grammar shape (list with empty rule and a unit root rule); context types: a move-only struct; black box.', '3 C13'),
